@@ -230,6 +230,18 @@ def scenarios(rng: random.Random, tier: str):
     for conn, host in ((0, "peer1.x"), (1, "peer2.x"), (2, "peer3.x")):
         out.append(prex + " | " + " | ".join(req(conn, host, r, a) for r in ("realm.local", "realm.b", "realm.c", "extra.realm", "foreign.realm")
                                              for a in (4, 3)))
+    # … the same after one of the connections has gone (the routing table is not rewritten by a disconnect)
+    for gone in (0, 1, 2):
+        rest = [c for c in (0, 1, 2) if c != gone]
+        out.append(prex + f" | eof {gone} | tick | " + " | ".join(
+            req(c, f"peer{c + 1}.x", r, a) for c in rest for r in ("realm.local", "realm.b", "realm.c", "extra.realm") for a in (4, 3)))
+    # a configured peer that serves no application sits in a realm of its own: that realm is not served (3003, not 3007)
+    xk = ("NODE host=node.local;realm=realm.local;peer:peer1.x,realm.local,0,0,30,1,0,-,-,-,-;"
+          "peer:peer2.x,partner.org,0,0,30,1,0,-,-,-,-;peer:peer3.x,realm.local,0,0,30,1,0,-,-,-,-;"
+          "app:4,1,0,b,0,0,-")
+    prek = xk + " | start | acc | acc | " + handshake(0, "peer1.x") + " | " + handshake(1, "peer2.x")
+    out.append(prek + " | " + " | ".join(req(c, h, r, a) for c, h in ((0, "peer1.x"), (1, "peer2.x"))
+                                         for r in ("realm.local", "partner.org", "foreign.realm") for a in (4, 77)))
     dial = ("NODE host=node.local;realm=realm.local;peer:peer1.x,realm.local,1,0,30,1,0,-,-,-,-;"
             "peer:peer2.x,realm.local,1,0,30,1,0,-,-,-,-;peer:peer3.x,realm.local,1,0,30,1,0,-,-,-,-;"
             "app:4,1,0,b,0,0,-;app:4,1,0,b,0,1,-")
